@@ -10,7 +10,7 @@ def hooks_commits():
 CHECKS = {
  "C01": ("model_checking",
    "TLA+ reference semantics of Soy expressions (SoyValues/SoyExpr) evaluated by TLC: TLC enumerates the operator x operand-type grid, every nesting of two precedence levels with a discriminating operand triple, data-reference chains x data shapes and function x argument classes (SoyExprCases) and the cases are replayed through the real compiler+renderer in minimal/full/redundant spellings; every syntactic position is exercised through SoyExec programs; seeded random typed trees are recorded from the real renderer and validated by TLC (C01Trace)",
-   "oracle written from the language definition and the behaviour pinned by the repository's tests; cases the oracle marks Unspec (non-dyadic floats, collection equality, ill-typed arithmetic, 32-bit-unsafe integers) are not judged; Go generator/unparser trusted",
+   "oracle written from the language definition and the behaviour pinned by the repository's tests; cases the oracle marks Unspec (non-dyadic floats, collection equality, ill-typed arithmetic, 32-bit-unsafe integers) are not judged; Go generator/unparser trusted; one family (F9: floats printed in exponent form, whose digits the 32-bit-integer model cannot compute) is judged outside the TLA+ model by a necessary condition on the real output (a number literal of the language that reads back to exactly the value); globals are supplied both as a map and through a globals file (ParseGlobals)",
    "TLA+ executable semantics; TLC case enumeration replayed on the real code + TLC trace validation of recorded renders", "§5 C01"),
  "C02": ("model_checking",
    "SoyExec.tla is a small-step reference interpreter (scope frames, activations, capture buffers, writer); whole generated bundles (calls across namespaces, data=all/expr, params, lets, loops, switch, css, log, msg, autoescape modes) are rendered by the real code and TLC runs the reference machine on each recorded program (C02Trace), with FramesOK/InputUnchanged as invariants",
@@ -78,14 +78,14 @@ CHECKS = {
    "TLA+ PO round-trip model checked by TLC + real extractor/loader/renderers (Go and generated JS) replaying exported messages", "§5 C11"),
  "C05": ("model_checking",
    "SoyLexer.tla: the scanner as a finite automaton over (control point x character class) with lazily chosen input, so TLC decides for inputs of every length Progress, NoSpin, NoCrash and, under weak fairness, termination; SoyLexParse.tla: scanner goroutines and parser frames over rendez-vous channels (ParserProgress, NoSendOnClosed, NoPanicEscapes, Terminates), refining the hook protocol SoyLexProto; every named deviation (css/header-param/string/comment/soydoc/literal EOF loops, switch ignoring unknown tokens, ...) must be caught; on the real code one input per transition of the model's state graph (EOF in every state), all pairs (thorough: triples) of a 105-entry tag dictionary in 31 contexts, every prefix of the test files, token deletions/duplications/swaps and random bytes are parsed in worker subprocesses: returns, no panic, scanner steps linear in the input; recorded hook traces are validated by TLC",
-   "a hang is declared only by a probe in a fresh process (10 s watchdog, two identical stack samples, twice); 'proportional time' is approximated by a step bound of 12*len+64",
+   "a hang is declared only by a probe in a fresh process (10 s watchdog, two identical stack samples, twice); 'proportional time' is approximated by a step bound of 12*len+64 on the scanner model, and on the real code by a scaling family (48 repeatable constructs at n/4n/32n, CPU time of fresh worker processes, ratio bound, re-measured; inconclusive measurements are not judged) - that family is a measurement, not decided by TLC",
    "TLA+ lexer automaton / lexer-parser protocol model checked by TLC + model-derived and dictionary inputs replayed in isolated workers + TLC validation of hook traces", "§5 C05"),
  "C18": ("model_checking",
    "SoyLexParse.tla / SoyLexProto.tla: NoLeak (when a parse entry point has returned every scanner has closed its channel or had its last item received) on every exit path of SoyFile, Expr and the nested quoted-expression parser; deviations expr_no_drain / quoted_no_drain / recover_no_drain / runtime_panic_in_frame must break it; on the real code every C05 input plus expressions with trailing tokens and errors inside quoted attribute expressions and globals files are parsed in sequences of 1000 per process: the hook trace must show close (or last item received) before return for every scanner, and independently the goroutine profile must return to baseline; sampled traces are validated by TLC",
-   "a leak is a violation only when hooks, goroutine profile and the end-of-sequence poll agree",
+   "the goroutine profile (a goroutine with a robfig/soy frame still present after the settle time and at the end-of-sequence poll) is the ground truth for a leak; the hook protocol attributes it to a scanner where it can; a build whose channel discipline differs from the rendez-vous protocol is reported in a NOTE (hook_protocol_out_of_step) and judged on the profile alone; Bundle.Compile/CompileToTofu and ParseGlobals are entry points too",
    "TLA+ protocol model checked by TLC + hook-trace conformance and goroutine-profile observation on the real parser", "§5 C18"),
  "C19": ("model_checking",
-   "parse half: SoyLexParse.tla carries item positions (PosInInput; deviations error_uses_zero_item / quoted_pos_relative); generated valid files x 13 fault kinds x every line, the reported file/line must be the fault's; render half: SoyErrPos.tla models which node the error of a failing render is built from (PositionOK; 3 deviations) and exports every layout (0-2 enclosing blocks x 8 failing commands x call depth 0-3 in a second file) with its source lines and the allowed line interval, replayed on the real renderer",
+   "parse half: SoyLexParse.tla carries item positions (PosInInput; deviations error_uses_zero_item / quoted_pos_relative); generated valid files x 13 fault kinds x every line, the reported file/line must be the fault's; render half: SoyErrPos.tla models which node the error of a failing render is built from (PositionOK; 6 deviations: innermost frame, callee file, line from other source, call node not restored, source per namespace, source per file name) and exports every layout (0-2 enclosing blocks x 10 failing commands incl. Go run-time panics x call depth 0-3 in a second file x a third file with the entry file's namespace or name added before/after) with its source lines and the allowed line interval, replayed on the real renderer",
    "for unterminated constructs any line from the construct's first line to the end is accepted; for render errors any line on the path from the outermost enclosing command to the failing command",
    "TLA+ position models checked by TLC + fault injection at every line (parse) and TLC-exported layouts (render) replayed on the real code", "§5 C19"),
 }
